@@ -79,21 +79,16 @@ def to_jsonable(obj, limit=400):
     return repr(obj)[:500]
 
 
-_FLAGS = [True]
 
 
 def digest(obj, flags=True):
     """SHA-1 over the bytes, dtype, shape and (unless flags=False) write flag of every array reachable in obj."""
     sha = hashlib.sha1()
-    _FLAGS[0] = bool(flags)
-    try:
-        _digest_into(sha, obj, 0)
-    finally:
-        _FLAGS[0] = True
+    _digest_into(sha, obj, 0, bool(flags))  # no module-level state: monitors digest concurrently in several threads
     return sha.hexdigest()
 
 
-def _digest_into(sha, obj, depth):
+def _digest_into(sha, obj, depth, flags=True):
     import pandas as pd
 
     try:
@@ -103,50 +98,50 @@ def _digest_into(sha, obj, depth):
     if depth > 6:
         return
     if isinstance(obj, np.ndarray):
-        sha.update(str((obj.dtype.str, obj.shape, bool(obj.flags.writeable) if _FLAGS[0] else None)).encode())
+        sha.update(str((obj.dtype.str, obj.shape, bool(obj.flags.writeable) if flags else None)).encode())
         if obj.dtype == object:
             for item in obj.ravel():
-                _digest_into(sha, item, depth + 1)
+                _digest_into(sha, item, depth + 1, flags)
         else:
             sha.update(np.ascontiguousarray(obj).tobytes())
     elif isinstance(obj, pd.Series):
         sha.update(b"series")
-        _digest_into(sha, np.asarray(obj.index), depth + 1)
-        _digest_into(sha, obj.to_numpy(), depth + 1)
+        _digest_into(sha, np.asarray(obj.index), depth + 1, flags)
+        _digest_into(sha, obj.to_numpy(), depth + 1, flags)
     elif isinstance(obj, pd.DataFrame):
         sha.update(b"frame")
-        _digest_into(sha, np.asarray(obj.index), depth + 1)
+        _digest_into(sha, np.asarray(obj.index), depth + 1, flags)
         for col in obj.columns:
             sha.update(str(col).encode())
-            _digest_into(sha, obj[col].to_numpy(), depth + 1)
+            _digest_into(sha, obj[col].to_numpy(), depth + 1, flags)
     elif xr is not None and isinstance(obj, xr.DataArray):
         sha.update(b"dataarray" + str(obj.dims).encode() + str(obj.name).encode())
-        _digest_into(sha, obj.values, depth + 1)
+        _digest_into(sha, obj.values, depth + 1, flags)
         for name in obj.coords:
             sha.update(str(name).encode())
-            _digest_into(sha, obj.coords[name].values, depth + 1)
+            _digest_into(sha, obj.coords[name].values, depth + 1, flags)
         sha.update(repr(sorted(obj.attrs.items(), key=str)).encode())
     elif xr is not None and isinstance(obj, xr.Dataset):
         sha.update(b"dataset")
         for name in obj.variables:
             sha.update(str(name).encode() + str(obj[name].dims).encode())
-            _digest_into(sha, obj[name].values, depth + 1)
+            _digest_into(sha, obj[name].values, depth + 1, flags)
         sha.update(repr(sorted(obj.attrs.items(), key=str)).encode())
     elif isinstance(obj, (list, tuple)):
         sha.update(("seq%d" % len(obj)).encode())
         for item in obj:
-            _digest_into(sha, item, depth + 1)
+            _digest_into(sha, item, depth + 1, flags)
     elif isinstance(obj, dict):
         sha.update(b"dict")
         for key in sorted(obj, key=str):
             sha.update(str(key).encode())
-            _digest_into(sha, obj[key], depth + 1)
+            _digest_into(sha, obj[key], depth + 1, flags)
     elif isinstance(obj, (int, float, str, bool, type(None), np.generic)):
         sha.update(repr(obj).encode())
     elif hasattr(obj, "get_params") and not isinstance(obj, type):
         sha.update(type(obj).__name__.encode())
         try:
-            _digest_into(sha, obj.get_params(deep=False), depth + 1)
+            _digest_into(sha, obj.get_params(deep=False), depth + 1, flags)
         except Exception:  # noqa: BLE001
             pass
     else:
